@@ -112,7 +112,29 @@ def verify_contract(world, k, use_cvc5=True):
         elif not getattr(ex, 'endpoints', 0):
             rep.error = 'engine error: no feasible path reaches a normal return of %s (vacuous contract?)' % k.qual
         rep.stats['returns_reached'] = getattr(ex, 'endpoints', 0)
-        rep.results = discharge_all(k, vcs, use_cvc5)
+        # one reachable path per canary point is what the vacuity guard needs: canaries of the same point on further paths
+        # are only consulted while none has been found satisfiable yet
+        first, later, seen = [], [], set()
+        for vc in vcs:
+            if vc.expect == 'sat' and vc.name in seen:
+                later.append(vc)
+            else:
+                if vc.expect == 'sat':
+                    seen.add(vc.name)
+                first.append(vc)
+        results = discharge_all(k, first, use_cvc5)
+        live = {r.vc.name for r in results if r.vc.expect == 'sat' and r.ok}
+        skipped = 0
+        for vc in later:
+            if vc.name in live:
+                skipped += 1
+                continue
+            r = LiteResult(vc, _summarise(k, discharge(vc, use_cvc5)))
+            results.append(r)
+            if r.ok:
+                live.add(vc.name)
+        rep.stats['canaries_not_needed'] = skipped
+        rep.results = results
     except (Unsupported, SpecError) as e:
         rep.error = '%s: %s' % (type(e).__name__, e)
     except Exception as e:     # engine bug: never a verdict
